@@ -161,6 +161,13 @@ func (w *world) serve(l *fb.Link) {
 			switch g := b.Inbox[scan].(type) {
 			case *packet.Connect:
 				w.mu.Lock()
+				if l.N < w.liveN {
+					// a connection the service has long given up (this goroutine lagged
+					// behind): a real broker would see its CONNECT before the newer one
+					w.mu.Unlock()
+					b.Drop()
+					return
+				}
 				if g.CleanSession {
 					w.subs = map[string]int{}
 					w.hadSess = false
@@ -197,7 +204,9 @@ func (w *world) serve(l *fb.Link) {
 				} else {
 					w.mu.Lock()
 					for i, s := range g.Subscriptions {
-						w.subs[s.Topic] = int(s.QOS)
+						if l.N == w.liveN {
+							w.subs[s.Topic] = int(s.QOS)
+						}
 						w.seenSub[s.Topic] = true
 						codes[i] = s.QOS
 					}
@@ -207,7 +216,9 @@ func (w *world) serve(l *fb.Link) {
 			case *packet.Unsubscribe:
 				w.mu.Lock()
 				for _, t := range g.Topics {
-					delete(w.subs, t)
+					if l.N == w.liveN {
+						delete(w.subs, t)
+					}
 					w.seenUnsub[t] = true
 				}
 				w.mu.Unlock()
